@@ -26,6 +26,7 @@ use simswarm::net::{self, mux_pair, ConnResult, MuxCtl, NetState, SimMuxer, SimT
 use std::collections::BTreeMap;
 use std::io;
 use std::num::NonZeroUsize;
+use std::future::Future as _;
 use std::pin::Pin;
 use std::sync::atomic::{AtomicBool, Ordering};
 use std::sync::{Arc, Mutex};
@@ -36,8 +37,10 @@ use vcore::{gen, pick, Ctx, Outcome};
 
 /// request timeout of every behaviour in the world (real time)
 const TIMEOUT_MS: u64 = 40;
-/// how long the wind-down waits (real time) for timer-driven outcomes before giving up
-const WINDDOWN_MS: u64 = 600;
+/// hard cap on the real time the wind-down waits for timer-driven outcomes
+const WINDDOWN_MS: u64 = 8000;
+/// canary timers (see `wind_down`) that must fire in a row before the wind-down gives up
+const CANARY_ROUNDS: u32 = 3;
 
 // ---------------------------------------------------------------------------------------------
 // codec
@@ -779,7 +782,16 @@ impl World {
         for k in 0..self.incoming.len() {
             self.resolve_incoming(k, true);
         }
+        // Waiting for timer-driven outcomes must not depend on how fast this machine is: the timers
+        // of the code under test (request timeout) are fired, in deadline order, by the timer
+        // thread of `futures_timer`. A canary `Delay` armed at a quiescent point with a longer
+        // duration than the request timeout fires after every request timer that existed at that
+        // point. Only when CANARY_ROUNDS canaries in a row have fired, each armed at a quiescent
+        // point after the previous one fired, and outcomes are still missing, do we give up
+        // (Inconclusive). WINDDOWN_MS is a hard cap on the total wait.
         let start = Instant::now();
+        let mut canary: Option<futures_timer::Delay> = None;
+        let mut rounds = 0;
         loop {
             let settled = self.settle();
             if self.fail.is_some() {
@@ -791,19 +803,97 @@ impl World {
                     self.resolve_dial(i, d, 1, true);
                 }
             }
-            if settled && self.missing() == (0, 0) && self.exec.runnable().is_empty() && (0..self.nodes.len()).all(|i| !self.woken(i)) {
-                return None;
+            let quiet = settled && self.exec.runnable().is_empty() && (0..self.nodes.len()).all(|i| !self.woken(i)) && (0..self.nodes.len()).all(|i| self.open_dials(i).is_empty());
+            if quiet {
+                if self.missing() == (0, 0) {
+                    return None;
+                }
+                // Outcomes are missing at a quiescent point: every event that was on its way has
+                // been delivered. The witnesses below are facts about the state, not about time.
+                self.witnesses();
+                if self.fail.is_some() {
+                    return None;
+                }
+                let fired = match canary.as_mut() {
+                    None => true,
+                    Some(d) => {
+                        let w = futures::task::noop_waker();
+                        let mut cx = Context::from_waker(&w);
+                        Pin::new(d).poll(&mut cx).is_ready()
+                    }
+                };
+                if fired {
+                    if canary.is_some() {
+                        rounds += 1;
+                        if rounds >= CANARY_ROUNDS {
+                            break;
+                        }
+                    }
+                    canary = Some(futures_timer::Delay::new(Duration::from_millis(TIMEOUT_MS + 20)));
+                }
             }
             if start.elapsed() >= Duration::from_millis(WINDDOWN_MS) {
                 break;
             }
             std::thread::sleep(Duration::from_millis(2));
         }
-        // Outcomes are missing after >= 15 request timeouts. Look for witnesses that do not depend on time.
-        self.settle();
-        if self.fail.is_some() {
-            return None;
+        let (o, n) = self.missing();
+        let mut diag = vec![];
+        {
+            // diagnosis only: would a spurious poll of everything make progress (= a lost wake-up)?
+            let alive = self.exec.alive();
+            let runnable = self.exec.runnable();
+            diag.push(format!("tasks alive={} runnable={}", alive.len(), runnable.len()));
+            for t in alive {
+                self.exec.poll_task(t);
+            }
+            for i in 0..self.nodes.len() {
+                self.poll(i);
+            }
+            self.settle();
+            let (o2, n2) = self.missing();
+            diag.push(format!("after spurious polls of every task and swarm: {o2} outbound / {n2} inbound missing"));
+            std::thread::sleep(Duration::from_millis(100));
+            self.settle();
+            let (o3, n3) = self.missing();
+            diag.push(format!("after 100 more ms: {o3} outbound / {n3} inbound missing"));
         }
+        for (i, node) in self.nodes.iter().enumerate() {
+            for (id, r) in node.out.iter().filter(|(_, r)| r.terminals.is_empty()) {
+                let sw = &node.swarm;
+                diag.push(format!(
+                    "out n{i} id{id} tracked={} beh_connected={} swarm_connected={} pending_out={} est={}",
+                    sw.behaviour().is_pending_outbound(&r.peer, id),
+                    sw.behaviour().is_connected(&r.peer),
+                    sw.is_connected(&r.peer),
+                    sw.network_info().connection_counters().num_pending_outgoing(),
+                    node.est.len()
+                ));
+            }
+            for (id, r) in node.inb.iter().filter(|(_, r)| r.terminals.is_empty()) {
+                let ch = match &r.chan {
+                    Chan::Held(c) => {
+                        if c.is_open() {
+                            "held-open"
+                        } else {
+                            "held-closed"
+                        }
+                    }
+                    Chan::Responded => "responded",
+                    Chan::RespondRefused => "refused",
+                    Chan::DroppedOpen => "dropped-open",
+                    Chan::DroppedClosed => "dropped-closed",
+                };
+                diag.push(format!("in n{i} id{id} chan={ch} tracked={} conn_est={}", node.swarm.behaviour().is_pending_inbound(&r.peer, id), node.est.contains_key(&r.conn)));
+            }
+        }
+        Some(format!("{o} outbound / {n} inbound requests without outcome after {rounds} canary timers / {} ms of real waiting (no time-independent witness): {}", start.elapsed().as_millis(), diag.join("; ")))
+    }
+
+    /// Called at a quiescent point (nothing runnable, every swarm polled until Pending, no open
+    /// transport dial) while outcomes are missing: looks for evidence, independent of timers, that
+    /// a missing outcome can never arrive.
+    fn witnesses(&mut self) {
         for i in 0..self.nodes.len() {
             let outs: Vec<(rr::OutboundRequestId, PeerId)> = self.nodes[i].out.iter().filter(|(_, r)| r.terminals.is_empty()).map(|(k, r)| (*k, r.peer)).collect();
             for (id, peer) in outs {
@@ -813,14 +903,14 @@ impl World {
                         "C45:outbound-request-waits-for-a-connection-nobody-is-dialing",
                         json!({"node": i, "request_id": id.to_string(), "why": "the request is still queued for a not-connected peer, the swarm has no pending outgoing connection and everything is quiescent: no Response/OutboundFailure can arrive"}),
                     );
-                    return None;
+                    return;
                 }
                 if !self.nodes[i].swarm.behaviour().is_pending_outbound(&peer, &id) {
                     self.fail(
                         "C45:outbound-request-forgotten-without-outcome",
                         json!({"node": i, "request_id": id.to_string(), "why": "no Response/OutboundFailure was emitted and the behaviour no longer tracks the request (is_pending_outbound == false) at quiescence"}),
                     );
-                    return None;
+                    return;
                 }
             }
             let ins: Vec<rr::InboundRequestId> = self.nodes[i].inb.iter().filter(|(_, r)| r.terminals.is_empty()).map(|(k, _)| *k).collect();
@@ -842,7 +932,7 @@ impl World {
                         "C45:inbound-request-forgotten-without-outcome",
                         json!({"node": i, "request_id": id.to_string(), "channel": chan, "why": "no ResponseSent/InboundFailure was emitted and the behaviour no longer tracks the request (is_pending_inbound == false) at quiescence"}),
                     );
-                    return None;
+                    return;
                 }
                 if worker_gone && self.nodes[i].est.contains_key(&conn) {
                     self.fail(
@@ -850,12 +940,10 @@ impl World {
                         json!({"node": i, "request_id": id.to_string(), "channel": chan, "connection_still_established": true,
                                "why": "the response channel of the delivered request is closed (the handler already dropped the stream's worker), the behaviour still lists the request as pending, the connection stays open: no ResponseSent/InboundFailure can arrive before the connection closes"}),
                     );
-                    return None;
+                    return;
                 }
             }
         }
-        let (o, n) = self.missing();
-        Some(format!("{o} outbound / {n} inbound requests without outcome after {WINDDOWN_MS} ms of real waiting (no time-independent witness)"))
     }
 }
 
@@ -881,6 +969,9 @@ fn check(case: &Case) -> Outcome {
         return Outcome::fail(sig, detail);
     }
     if let Some(why) = inconclusive {
+        if std::env::var_os("C45_DUMP").is_some() {
+            eprintln!("C45_DUMP inconclusive: {why}\n{}", serde_json::to_string(case).unwrap_or_default());
+        }
         return Outcome::Inconclusive(why);
     }
     let mut labels: Vec<&'static str> = st.labels.iter().copied().collect();
@@ -1002,7 +1093,7 @@ fn starve_strategy() -> BoxedStrategy<Case> {
 
 pub fn run(ctx: &mut Ctx) {
     ctx.assume("transport, muxer and scheduling are simulated (simswarm::net, vcore::simexec): connection tasks are polled only when the harness says so; peers are real Swarms with request_response::Behaviour over a scripted codec");
-    ctx.assume(&format!("request_timeout = {TIMEOUT_MS} ms of real time (futures_timer); the wind-down waits up to {WINDDOWN_MS} ms for timer-driven outcomes and reports Inconclusive, never a violation, unless a time-independent witness (behaviour getters is_pending_outbound / is_pending_inbound, ResponseChannel::is_open, connection still established) shows that the outcome cannot arrive"));
+    ctx.assume(&format!("request_timeout = {TIMEOUT_MS} ms of real time (futures_timer). Violations are only reported from facts that do not depend on time: a second outcome event, a reused id, or — at a quiescent point (nothing runnable, all swarms polled to Pending, no open dial) — a request without outcome that the behaviour no longer tracks (is_pending_outbound / is_pending_inbound false), that waits for a connection nobody is dialing, or whose response channel is closed (handler gave the stream up) while the behaviour still lists it and the connection stays established. Otherwise the wind-down waits until {CANARY_ROUNDS} canary timers of {} ms, each armed at a quiescent point, have fired in a row (they fire after every request timer that existed when they were armed), hard cap {WINDDOWN_MS} ms; outcomes still missing then => Inconclusive, never a violation", TIMEOUT_MS + 20));
     ctx.assume("idle_connection_timeout = 1 h, so connections only close when the case closes them; the substream upgrade timeout keeps its default (10 s) and never fires");
     ctx.check::<Case>(
         "world",
